@@ -78,5 +78,9 @@ pub fn run(o: &Opts) -> Report {
         }
         rep.evaluations += 1;
     }
+    // the observation the replay is about: the implementation's answer to the last line
+    if let Some(Some(a)) = impl_outs.iter().rev().find(|x| x.is_some()) {
+        rep.notes.push(format!("last-impl={}", a));
+    }
     rep
 }
